@@ -18,18 +18,20 @@ Proof.
 Qed.
 
 Lemma ladder_netbsd : forall meth site c r,
-  err_ok NetBSD (c_err c) = true -> demanded NetBSD meth site c = Some r -> method_outcome NetBSD meth site c = r.
+  err_ok NetBSD (c_err c) = true -> known_pid0_unlisted NetBSD meth site c = false ->
+  demanded NetBSD meth site c = Some r -> method_outcome NetBSD meth site c = r.
 Proof.
-  intros meth site c r He Hd.
-  unfold demanded, recovery, contract, nosuch_failure, method_outcome, inner, wrap_procfs in *.
+  intros meth site c r He Hk Hd.
+  unfold demanded, recovery, contract, nosuch_failure, method_outcome, inner, wrap_procfs, known_pid0_unlisted in *.
   destruct (g_netbsd_cmdline meth site), (g_netbsd_exe meth site); case_cond c.
 Qed.
 
 Lemma ladder_sunos : forall meth site c r,
-  err_ok SunOS (c_err c) = true -> demanded SunOS meth site c = Some r -> method_outcome SunOS meth site c = r.
+  err_ok SunOS (c_err c) = true -> known_pid0_unlisted SunOS meth site c = false ->
+  demanded SunOS meth site c = Some r -> method_outcome SunOS meth site c = r.
 Proof.
-  intros meth site c r He Hd.
-  unfold demanded, recovery, contract, nosuch_failure, method_outcome, inner in *.
+  intros meth site c r He Hk Hd.
+  unfold demanded, recovery, contract, nosuch_failure, method_outcome, inner, known_pid0_unlisted in *.
   destruct (g_sunos_cred meth site), (g_sunos_exe meth site), (g_sunos_path meth site), (g_sunos_thread meth site);
     case_cond c.
 Qed.
@@ -52,10 +54,10 @@ Proof.
 Qed.
 
 Theorem ladder_model : forall p meth site c r,
-  err_ok p (c_err c) = true ->
+  err_ok p (c_err c) = true -> known_pid0_unlisted p meth site c = false ->
   demanded p meth site c = Some r -> method_outcome p meth site c = r.
 Proof.
-  intros p meth site c r He Hd. destruct p.
+  intros p meth site c r He Hk Hd. destruct p.
   - apply ladder_plain; auto.
   - apply ladder_plain; auto.
   - apply ladder_netbsd; auto.
@@ -73,22 +75,47 @@ Theorem ppid_unwrapped_legacy_refuted :
             /\ method_outcome Windows "ppid" "ppid_map" c = RDenied.
 Proof. exists (Build_cond WACCESS Alive false). vm_compute. auto. Qed.
 
+(* finding: a PID 0 the OS does not list is still taken to exist *)
+Theorem pid0_unlisted_refuted :
+  (exists c, err_ok SunOS (c_err c) = true /\ c_pid0 c = true /\ c_state c = Gone
+             /\ demanded SunOS "ppid" "proc_basic_info" c = Some RNoSuch
+             /\ method_outcome SunOS "ppid" "proc_basic_info" c = RZombie)
+  /\ (exists c, err_ok NetBSD (c_err c) = true /\ c_pid0 c = true /\ c_state c = Gone
+               /\ demanded NetBSD "cmdline" "proc_cmdline" c = Some RNoSuch
+               /\ method_outcome NetBSD "cmdline" "proc_cmdline" c = RVal).
+Proof.
+  split; [exists (Build_cond ESRCH Gone true) | exists (Build_cond EINVAL Gone true)]; vm_compute; auto 10.
+Qed.
+
+(* the PID-0 rule needs PID 0 to be listed: otherwise the error passes through *)
+Example pid0_not_listed_passes_through :
+  demanded SunOS "nice_get" "proc_basic_info" (Build_cond EIO Gone true) = Some RRaw
+  /\ demanded FreeBSD "ppid" "proc_oneshot_info" (Build_cond EINVAL Gone true) = Some RRaw
+  /\ known_pid0_unlisted SunOS "nice_get" "proc_basic_info" (Build_cond EIO Gone true) = false.
+Proof. vm_compute. auto. Qed.
+
 Example ladder_model_nontrivial :
-  err_ok SunOS EIO = true /\
+  err_ok SunOS EIO = true /\ known_pid0_unlisted SunOS "nice_get" "proc_basic_info" (Build_cond EIO Alive true) = false /\
   demanded SunOS "nice_get" "proc_basic_info" (Build_cond EIO Alive true) = Some RDenied.
 Proof. vm_compute. auto. Qed.
 
 (* ------------------------------------------------------------------ part 2: generated tables *)
+Lemma Forall2_imp {A B} (P Q : A -> B -> Prop) l1 l2 :
+  (forall a b, P a b -> Q a b) -> Forall2 P l1 l2 -> Forall2 Q l1 l2.
+Proof. intros HPQ H. induction H; constructor; auto. Qed.
+
 Lemma ladder_tables_spec : forallb block_spec_ok ladder_blocks = true.
 Proof. vm_compute. reflexivity. Qed.
 Lemma ladder_tables_model : forallb block_model_ok ladder_blocks = true.
 Proof. vm_compute. reflexivity. Qed.
 
 Theorem ladder_contract : forall b, In b ladder_blocks ->
-  Forall2 (fun c g => gout_ok (demanded (l_plat b) (l_meth b) (l_site b) c) g = true) (conds (l_plat b)) (l_outs b).
+  Forall2 (fun c g => known_pid0_unlisted (l_plat b) (l_meth b) (l_site b) c = false ->
+                      gout_ok (demanded (l_plat b) (l_meth b) (l_site b) c) g = true) (conds (l_plat b)) (l_outs b).
 Proof.
   intros b Hin. pose proof (proj1 (forallb_forall _ _) ladder_tables_spec b Hin) as H.
-  unfold block_spec_ok in H. apply forallb2_Forall2 in H. exact H.
+  unfold block_spec_ok in H. apply forallb2_Forall2 in H.
+  eapply Forall2_imp; [|exact H]. cbv beta. intros c g Hor Hk. rewrite Hk in Hor. exact Hor.
 Qed.
 
 Theorem ladder_tables_equal_model : forall b, In b ladder_blocks ->
@@ -111,6 +138,54 @@ Example ppid_block_present :
   existsb (fun b => plat_eqb (l_plat b) Windows && String.eqb (l_meth b) "ppid" && String.eqb (l_site b) "ppid_map"
                     && existsb fired (l_outs b)) ladder_blocks = true.
 Proof. vm_compute. reflexivity. Qed.
+
+(* the excluded class really occurs in the probed code *)
+Theorem pid0_unlisted_in_tables :
+  exists b, In b ladder_blocks /\ l_plat b = SunOS /\
+    forallb2 (fun c g => gout_ok (demanded (l_plat b) (l_meth b) (l_site b) c) g) (conds (l_plat b)) (l_outs b) = false.
+Proof.
+  destruct (find (fun b => plat_eqb (l_plat b) SunOS && negb (forallb2 (fun c g => gout_ok (demanded (l_plat b) (l_meth b) (l_site b) c) g)
+                                                                  (conds (l_plat b)) (l_outs b))) ladder_blocks) as [b|] eqn:E;
+    [| vm_compute in E; discriminate].
+  apply find_some in E as [Hin Hb]. apply andb_true_iff in Hb as [Hp Hf].
+  exists b. repeat split; auto. apply plat_eqb_eq; exact Hp. apply negb_true_iff in Hf; exact Hf.
+Qed.
+
+(* --- every native status code of every PROC_STATUSES *)
+Lemma status_tables_ok :
+  forallb sblock_spec_ok status_blocks && forallb sblock_model_ok status_blocks
+  && forallb srow_ok status_rows && sblocks_complete status_rows ladder_blocks status_blocks = true.
+Proof. vm_compute. reflexivity. Qed.
+
+Theorem zombie_by_status_code : forall b, In b status_blocks ->
+  Forall2 (fun z g => gout_ok (demanded (sb_plat b) (sb_meth b) (sb_site b) (scond (sb_plat b) (sb_code b) z)) g = true
+                      /\ gout_ok (Some (method_outcome (sb_plat b) (sb_meth b) (sb_site b) (scond (sb_plat b) (sb_code b) z))) g = true)
+          [false; true] (sb_outs b).
+Proof.
+  intros b Hin. pose proof status_tables_ok as H.
+  apply andb_true_iff in H as [H _]. apply andb_true_iff in H as [H _]. apply andb_true_iff in H as [H1 H2].
+  pose proof (proj1 (forallb_forall _ _) H1 b Hin) as Hs. pose proof (proj1 (forallb_forall _ _) H2 b Hin) as Hm.
+  unfold sblock_spec_ok in Hs. unfold sblock_model_ok in Hm.
+  destruct (sb_outs b) as [|g1 [|g2 [|g3 r]]]; cbn in Hs, Hm; try discriminate.
+  apply andb_true_iff in Hs as [Hs1 Hs2]. apply andb_true_iff in Hs2 as [Hs2 _].
+  apply andb_true_iff in Hm as [Hm1 Hm2]. apply andb_true_iff in Hm2 as [Hm2 _].
+  repeat constructor; assumption.
+Qed.
+
+Theorem status_codes_documented : forall r, In r status_rows -> srow_ok r = true.
+Proof.
+  intros r Hin. pose proof status_tables_ok as H.
+  apply andb_true_iff in H as [H _]. apply andb_true_iff in H as [_ H]. exact (proj1 (forallb_forall _ _) H r Hin).
+Qed.
+
+Theorem status_sweep_complete : sblocks_complete status_rows ladder_blocks status_blocks = true.
+Proof. pose proof status_tables_ok as H. apply andb_true_iff in H as [_ H]. exact H. Qed.
+
+Example status_sweep_nontrivial :
+  (900 <=? Z.of_nat (List.length status_blocks)) = true
+  /\ existsb (fun b => plat_eqb (sb_plat b) OpenBSD && String.eqb (sb_code b) "SDEAD"
+                      && existsb (fun g => match g with GX RZombie _ _ => true | _ => false end) (sb_outs b)) status_blocks = true.
+Proof. vm_compute. auto. Qed.
 
 (* --- slot maps *)
 Lemma smaps_ok : forallb smap_bijective slot_maps && forallb smap_native_ok slot_maps && smaps_complete slot_maps = true.
